@@ -8,8 +8,16 @@ import (
 
 //verif:harness VerifC15_History quick.maxpaths=60000 thorough.maxpaths=400000 timeout=3000 steps=30000000
 
-func zzC15Page(v int) string {
-	return "---\ntitle: t" + strconv.Itoa(v) + "\nlayout: wrap\n---\n<p>{{ title }} body" + strconv.Itoa(v) + "</p><template include=\"c.vuego\"></template>"
+func zzC15Page(v int) string { return zzC15PageParts(v, v, true) }
+
+// front-matter version, body version, front-matter present at all
+func zzC15PageParts(fmv, bodyv int, hasTitle bool) string {
+	fm := "---\n"
+	if hasTitle {
+		fm += "title: t" + strconv.Itoa(fmv) + "\n"
+	}
+	fm += "layout: wrap\n---\n"
+	return fm + "<p>{{ title }} body" + strconv.Itoa(bodyv) + "</p><template include=\"c.vuego\"></template>"
 }
 func zzC15Layout(v int) string {
 	return "---\nlk: l" + strconv.Itoa(v) + "\n---\n<main class=\"L" + strconv.Itoa(v) + "\"><span v-html=\"content\"></span>{{ lk }}</main>"
@@ -38,12 +46,26 @@ func VerifC15_History() {
 	out0, failed0 := render(long) // warm the cache
 	zzAssert(!failed0 && out0 != "", "C15.history.initial-render")
 	version := 0
+	fmv, bodyv := 0, 0
 	for step := 0; step < L; step++ {
 		version++
 		switch zzChoice("op", 5) {
 		case 0, 1: // edit the page / the layout with an arbitrary new modification time
 			name := "page.vuego"
-			content := zzC15Page(version)
+			// what the edit touches: everything, the front-matter only, the body only, or it removes the title
+			hasTitle := true
+			switch zzChoice("touch", 4) {
+			case 0:
+				fmv, bodyv = version, version
+			case 1:
+				fmv = version
+			case 2:
+				bodyv = version
+			case 3:
+				hasTitle = false
+				fmv = version
+			}
+			content := zzC15PageParts(fmv, bodyv, hasTitle)
 			if zzBool("layout") {
 				name = "layouts/wrap.vuego"
 				content = zzC15Layout(version)
@@ -58,6 +80,7 @@ func VerifC15_History() {
 		case 2: // delete the page
 			delete(fsys.files, "page.vuego")
 		case 3: // (re)create the page with a later modification time than ever used
+			fmv, bodyv = version, version
 			fsys.files["page.vuego"] = zzC15Page(version)
 			fsys.mtime["page.vuego"] = int64(10 + version)
 		case 4: // edit the component (not cached)
